@@ -51,14 +51,44 @@ def impl_env() -> dict:
 
 @contextmanager
 def locked(name: str):
+    """File lock shared by all checks; re-entrant within one process (a holder that asks again just goes on)."""
+    import threading
+    key = (name, threading.get_ident())       # re-entrant per THREAD: another thread of this process waits like a stranger
+    if key in _HELD:
+        yield
+        return
     (VERIF / "build").mkdir(exist_ok=True)
     path = VERIF / "build" / f"{name}.lock"
     with open(path, "w") as fh:
         fcntl.flock(fh, fcntl.LOCK_EX)
+        _HELD.add(key)
         try:
             yield
         finally:
+            _HELD.discard(key)
             fcntl.flock(fh, fcntl.LOCK_UN)
+
+
+_HELD: set = set()
+
+# generated Coq sources (tie T) and the translator that writes each of them from the tree under test
+GENERATED = {
+    "scopes/ChainGen.v": "translate_chain.py", "prims/FastPathGen.v": "translate_fastpath.py",
+    "prims/LockGen.v": "translate_lock.py", "prims/SemGen.v": "translate_prims.py", "prims/LimiterGen.v": "translate_prims.py",
+    "prims/CondGen.v": "translate_cond.py", "prims/MemGen.v": "translate_mem.py",
+    "pure/BufGen.v": "translate_buffered.py", "pure/TextGen.v": "translate_text.py",
+}
+
+
+def regenerate_generated(prop_file: str) -> None:
+    """Every generated file in the cone of prop_file is rewritten from the tree under test (VERIF_REPO) before the cone is
+    built: a file left behind by a run against ANOTHER tree (a refusal does not even compile) must never decide a check
+    that does not run that translator itself (C03's cone contains ChainGen.v; found by a soak run racing a seed run)."""
+    import sys as _sys
+    cone = set(coq_deps(prop_file))
+    for script in sorted({GENERATED[f] for f in cone if f in GENERATED}):
+        subprocess.run([_sys.executable, str(VERIF / "tools" / script)], env=dict(os.environ, VERIF_REPO=str(REPO)),
+                       stdout=subprocess.DEVNULL, stderr=subprocess.DEVNULL, timeout=120)
 
 
 def sh(cmd, cwd=None, timeout=1200, env=None, check=False):
@@ -364,7 +394,9 @@ def proof_stage(rep: Report, prop_file: str, extra_gate: list[str] | None = None
     """Build props/Cxx.vo with its cone, run the gate, fill the proof part of the coverage.
     Returns True if every obligation checked."""
     target = prop_file[:-2] + ".vo"
-    ok, log = coq_make([target])
+    with locked("tiegen"):
+        regenerate_generated(prop_file)
+        ok, log = coq_make([target])
     cone = coq_deps(prop_file)
     n, names = count_obligations(cone)
     gate = coq_gate(cone + (extra_gate or []))
